@@ -44,12 +44,12 @@ def field_type(ctx, me, t):
 # contexts outside every known class, usable in a struct field
 CLEAN_FIELD = ["direct", "option", "vec", "map_value", "btree_value", "set", "btree_set", "tuple_first", "tuple_last",
                "ref", "opt_vec", "vec_opt", "map_vec", "vec_tuple", "opt_opt", "map_key", "tuple_mid", "opt_tuple_vec",
-               "map_tuple", "ref_ref", "tuple4_last"]
-KF_FIELD = ["tuple_map", "result_alias", "vec_result_alias", "result_ok", "result_err"]
+               "map_tuple", "ref_ref", "tuple4_last", "result_alias", "vec_result_alias"]
+KF_FIELD = ["tuple_map", "result_ok", "result_err"]
 CLEAN_PARAM = ["direct", "option", "vec", "map_value", "tuple_last", "ref", "opt_vec", "vec_tuple", "set", "map_tuple"]
 KF_PARAM = ["tuple_map"]
-CLEAN_RET = ["direct", "option", "vec", "result_ok", "map_value", "tuple_first", "opt_vec"]
-KF_RET = ["result_map", "result_alias", "tuple_map", "result_tuple"]
+CLEAN_RET = ["direct", "option", "vec", "result_ok", "map_value", "tuple_first", "opt_vec", "result_alias"]
+KF_RET = ["result_map", "tuple_map", "result_tuple"]
 
 TYPE_NAMES = ["User", "Profile", "Settings", "Item", "Order", "Address", "Status", "Kind", "Report", "Node", "Leaf", "Meta",
               "Account", "Token", "Batch", "Zone"]
@@ -138,7 +138,7 @@ def build(spec):
                     ret = P("Result", P("String") if ret is None else ret, tj)
                 elif how == "channel":
                     params.append({"name": "on_event%d" % n, "ty": P("Channel", CONTEXTS[ctx](tj),
-                                                                    segs=["tauri", "ipc"] if n % 2 else [])})
+                                                                    segs=[[], ["tauri", "ipc"], ["ipc"]][(n + len(c["name"])) % 3])})
                 elif how == "event":
                     need_app = True
                     if ctx == "literal":
@@ -202,6 +202,17 @@ def snake(name):
             out.append("_")
         out.append(ch.lower())
     return "".join(out)
+
+
+RUST_KEYWORDS = {"as", "box", "break", "const", "continue", "crate", "dyn", "else", "enum", "extern", "false", "fn", "for", "if", "impl",
+                 "in", "let", "loop", "match", "mod", "move", "mut", "pub", "ref", "return", "self", "static", "struct", "super",
+                 "trait", "true", "type", "unsafe", "use", "where", "while", "async", "await", "abstract", "become", "do", "final",
+                 "macro", "override", "priv", "try", "typeof", "unsized", "virtual", "yield", "union"}
+
+
+def ident(name):
+    """a lower-case identifier derived from a type name; never a Rust keyword (struct As gives as_)"""
+    return name + "_" if name in RUST_KEYWORDS else name
 
 
 def bad_name(nm, taken):
@@ -326,8 +337,8 @@ def random_spec(rng, clean=True, acyclic=None, max_types=8, events=True):
     cmds = []
     field_names = None
     if naming == "overlap":                 # field and command names built from the type names
-        field_names = list(dict.fromkeys([snake(t["name"]) for t in types[:n]] + [snake(t["name"]) + "_id" for t in types[:n]]))
-        pool = list(dict.fromkeys(["get_" + snake(t["name"]) for t in types[:n]] + [snake(t["name"]) for t in types[:n]] + FN_NAMES))
+        field_names = list(dict.fromkeys([ident(snake(t["name"])) for t in types[:n]] + [snake(t["name"]) + "_id" for t in types[:n]]))
+        pool = list(dict.fromkeys(["get_" + snake(t["name"]) for t in types[:n]] + [ident(snake(t["name"])) for t in types[:n]] + FN_NAMES))
         names = rng.sample(pool, rng.randint(1, 4))
     else:
         names = rng.sample(FN_NAMES, rng.randint(1, 4))
